@@ -1,4 +1,5 @@
 pub mod engine;
 pub mod envref;
+pub mod layermodel;
 pub mod report;
 pub mod snapshot;
